@@ -1037,6 +1037,8 @@ val hook_sites : node -> (char list * (n * n)) list
 
 val is_ns_ident : node -> bool
 
+val is_ns_member : node -> bool
+
 val stop_kind : node -> bool
 
 val meas : (node -> nat option) -> nat -> node -> nat
